@@ -948,7 +948,7 @@ def run(env, rep):
     aiocoap = env.import_repo()
     import aiocoap.pipe  # noqa: F401
     from aiocoap import meta
-    logging.getLogger("coap-verif-c17").setLevel(logging.CRITICAL + 1)
+    __import__("common").quiet(logging.getLogger("coap-verif-c17"))
     impl_uri = meta.library_uri
     rng = env.rng
     from aiocoap import resource
@@ -1000,7 +1000,7 @@ def run(env, rep):
 def replay(env, case):
     aiocoap = env.import_repo()
     import aiocoap.pipe  # noqa: F401
-    logging.getLogger("coap-verif-c17").setLevel(logging.CRITICAL + 1)
+    __import__("common").quiet(logging.getLogger("coap-verif-c17"))
     if case.get("impl_info") == "<library_uri>":
         from aiocoap import meta
         case = dict(case, impl_info=meta.library_uri)
